@@ -48,9 +48,9 @@ func (Prop) ID() string { return "C14" }
 
 func (Prop) Size(tier string) int {
 	if tier == "thorough" {
-		return 60000
+		return 1500000
 	}
-	return 2500
+	return 40000
 }
 
 func (Prop) Rule() string {
